@@ -439,7 +439,12 @@ func c15MDContent(f string, ver int) string {
 	case "h":
 		return fmt.Sprintf(`<h1 class="v%d" :id="id" v-html="content"></h1>`, ver)
 	}
-	return fmt.Sprintf("# Title %d\n\nabove  \nline\n\n---\n\nbelow\n", ver)
+	// (a reference-style link whose definition changes with every version and is missing in every third)
+	ref := fmt.Sprintf("\n[docs]: https://v%d.example/ \"T%d\"\n", ver, ver)
+	if ver%3 == 0 {
+		ref = ""
+	}
+	return fmt.Sprintf("# Title %d\n\nabove  \nline\n\n---\n\nbelow, see [the docs][docs] and [docs].\n%s", ver, ref)
 }
 
 func (c *c15Case) runMD(ctx *core.Ctx) {
